@@ -196,7 +196,21 @@ def run_case(case, stats):
             elif kinds == ["eof"] and out[1] != "EOFError":
                 raise Violation("error_kind", "truncation_not_EOFError:" + out[1],
                                 f"cut at {plan[0]['k']} of {len(A)} raised {out[1]}({out[2]})", plan=plan)
-        # ---- clause 4: no residue
+        # ---- clause 4: no residue - also on the SAME stream object: the faults of the plan are spent, a parse from the
+        # start of that very stream must now give the complete value (plans with a cut keep their cut, so they are skipped)
+        if "eof" not in kinds and stats.c["evaluations"] % 3 == 0:
+            try:
+                st.by_read.clear()
+                st.by_seek.clear()
+                st.by_tell.clear()  # whatever part of the plan has not fired is withdrawn: the stream is healthy from now on
+                st.seek(0)
+                again = _outcome(root, st)
+            except Exception as e:  # noqa: BLE001
+                again = ("exc", type(e).__name__, "")
+            stats.count("probe.same_stream_reparse")
+            if again != ("val", V):
+                raise Violation("no_residue", "same_stream_reparse_differs",
+                                f"after faulted parse plan={plan} parsing again from offset 0 of the SAME stream object gives {again} instead of {V}", plan=plan)
         if stats.c["evaluations"] % 7 == 0:
             r2 = _outcome(root, io.BytesIO(A2))
             if r2 != V2:
